@@ -25,7 +25,8 @@ RULE = ("(a) exhaustive: all 11x11 ordered pairs of energy units x 15 accessor p
         "optionally caught in the middle); (c) ~40 public builder/calculator entry points called inside each of several unit contexts at depth 1 and 2 "
         "under the frame-level leak detector; (d) energy-valued call arguments: the same physical coupling cut-off handed to Hamiltonian.remove_cutoff_coupling / "
         "subtract_cutoff_coupling / diagonalize(coupling_cutoff=) / get_RelaxationTensor('cRF', coupling_cutoff=) under each unit must leave the same stored "
-        "Hamiltonian, remainder coupling and tensor. distinct = (accessor, u1, u2) / (program shape) / (entry point, context); non-trivial iff u1 != u2, "
+        "Hamiltonian, remainder coupling and tensor; (e) the repository's own unit tests (qrv/stable_tests.json) run in-process as a workload for the leak "
+        "detector: every library frame they reach must return with the units it was entered with (a failing test is not a verdict). distinct = (accessor, u1, u2) / (program shape) / (entry point, context); non-trivial iff u1 != u2, "
         "program depth >= 2, or the entry point was entered under a non-internal unit.")
 ASSUMPTIONS = ["Manager.convert_frequency_* has no context that activates it and no managed accessor: not claimed",
                "results that depend on the active units (e.g. thermal states requested inside a 1/cm context) are outside the statement; "
@@ -44,6 +45,8 @@ def gen_cases(tier, rng):
     for u1 in EUNITS:
         cases.append({"cls": "accessor-pairs", "u1": u1, "x": r3(rng.uniform(0.3, 3.0)), "cost": 3})
     cases.append({"cls": "length-pairs", "cost": 1})
+    from qrv import repotests
+    cases.extend(repotests.gen_cases(tier))
     for cut in (50.0, 100.0, 10.0) + tuple(r3(rng.uniform(5.0, 220.0)) for _ in range(3 if tier == "quick" else 40)):
         cases.append({"cls": "cutoff-arguments", "cut_cm": cut, "seed": int(rng.integers(1 << 30)), "cost": 6})
     npg = 150 if tier == "quick" else 1500
@@ -189,6 +192,11 @@ def run_case(case, ctx):
                       {"after": "accessor round trips", "units": m.get_current_units("energy")})
         ctx.key(("accessors", u1))
         ctx.nontrivial(True)
+        return
+
+    if cls == "repo-tests":
+        from qrv import repotests
+        repotests.run_module(case, ctx, ("current_units", "_in_eu_count", "_in_energy_units_context"), "library-call-keeps-units", "frame-leaks-units:")
         return
 
     if cls == "cutoff-arguments":
